@@ -41,6 +41,7 @@ def main():
     corrupt["obs"]["opt"] = corrupt["obs"]["toks"]  # pretend tokens after -- count as option tokens
     lost = c08.observe("x y", ["x", "y"])
     lost["obs"]["toks"] = lost["obs"]["toks"][:1]  # drop a token
+    lost["obs"]["toksAfter"] = lost["obs"]["toks"]
     ctx = Ctx("SELFTEST", "quick", 0)
     v = ctx.validate(c08.SPEC, "TokenizerTrace", "TokenizerTrace.cfg", [[good], [corrupt], [lost]])
     want = ["ACCEPT", "FAIL", "FAIL"]
